@@ -86,6 +86,18 @@ class NodeRun:
             return True
         return False
 
+    def advertise(self, peer, block):
+        """The peer lists the block's hash in an (unsolicited) inventory; the node answers with its request for it.  No event of its own:
+        the block that follows is unsolicited all the same (in_response_to = 0)."""
+        from skepticoin.networking.messages import InventoryMessage, InventoryItem, DATA_BLOCK
+        self.mid += 1
+        try:
+            self.node.deliver(peer, netmsg.frame(netmsg.body(InventoryMessage([InventoryItem(DATA_BLOCK, block.hash())]), self.mid, 0, ts=self.clock())))
+        except Exception as e:
+            self.node.escaped.append(("advertise", repr(e)))
+        self.node.pump_writes()
+        self.node.take_sent(peer)
+
     def deliver_tx(self, peer, tx, label=None):
         from skepticoin.networking.messages import DataMessage, DATA_TRANSACTION
         self.node.use_store()
@@ -197,7 +209,8 @@ class NodeRun:
         for name in self.peers:
             self.node.take_sent(name)
         self.mw = None
-        self.events.append({"op": "restart", "now": self.clock(), "post": self.post()})
+        self.events.append({"op": "restart", "now": self.clock(), "read_order": [self.w.balias(h) for h in getattr(self.node, "read_order", [])],
+                            "post": self.post()})
         self.labels.append("restart")
 
     def trace(self):
